@@ -673,6 +673,7 @@ def stream_paths(rng, tier):
         p = rand_path(rng, f, "any", 6)
         yield "pathq %s %s" % (f, hx(p))
         yield "segs %s %s %s" % (f, hx(p), "".join(rng.choice("fb") for _ in range(rng.randrange(1, 10))))
+        yield "segs %s %s %s" % (f, hx(p), "".join(rng.choice("fbNB") for _ in range(rng.randrange(1, 6))) + rng.choice(["", "c", "l"]))
         # ... and what is left, consumed through `count()`, `last()`, `size_hint()`
         yield "segs %s %s %s" % (f, hx(p), "".join(rng.choice("fb") for _ in range(rng.randrange(0, 6))) + rng.choice("clz"))
 
